@@ -15,6 +15,43 @@ CLAIMED = {
         design='4/C20'),
 }
 
+CLAIMED.update({
+    'C11': dict(
+        text='Bounded symbolic model checking of the real lexer and parser (MIR of the current tree). Lexer: every text of <= 4 characters '
+             '(thorough 5) of 7-bit ASCII solver variables (<= 3/4 also over 8 non-ASCII representatives): spans non-empty, in bounds, on char '
+             'boundaries, ordered, gaps only whitespace/comments, prefix stability. Parser: parse_text on texts of <= 3 ASCII characters, 4 over the '
+             '21-character structural alphabet, 5 over an 11-character one and 6 over the dotted-list alphabet (thorough: one more each), compared with a '
+             'reference datum grammar on token types: tokens consumed, remaining text, Incomplete vs error, every token-boundary cut of a datum is Incomplete.',
+        note='Trusted: MIR dump; Python models of std iterators/str/Vec/Box/String/from_str_radix; Number::parse_with_exactness is a nondeterministic stub '
+             '(both outcomes); z3. Counterexamples replayed natively (dev + release) with the same oracle before being reported.',
+        technique='symbolic execution of rustc MIR with z3, differential oracle (reference grammar), native replay', design='4/C11'),
+    'C03': dict(
+        text='Inductive step, bounded: ONE collection (the real Vm::run_gc incl. mark*, sweep, free, grow, gc::Map) from an arbitrary valid VM state over '
+             'a heap of 8 cells (thorough 12): 28 templates place every reference-holding cell kind (pair, ptr, closure, lambda bytecode/args/envmap, '
+             'lexical environment incl. env pointers, vector, continuation stack/ip/ep) and every root kind (acc, stack slots up to a symbolic sp, ip, ep, '
+             'global bindings and slots); all embedded heap indices are solver variables. Asserted: every cell reachable in the pre-state is unchanged, '
+             'allocated, not on the free list, symbols keep their table entry, registers and stack untouched. Histories of any length follow by the '
+             'induction argument of DESIGN.md (not solver-checked).',
+        note='Trusted: MIR dump, models of Vec/Rc/RefCell/HashMap(concrete keys)/iterators, the representation invariant assumed for the pre-state, z3. '
+             'Counterexamples are rebuilt natively through the verif-hooks feature and judged by the same oracle (dev + release).',
+        technique='symbolic execution of rustc MIR with z3 from fabricated symbolic pre-states (one inductive step), native replay through hooks', design='4/C03'),
+    'C12': dict(
+        text='Second sentence of the property only ("immediately after a collection no unreachable object remains allocated"), as a bounded inductive step: '
+             'same harness as C03; asserted: every allocated cell not reachable in the pre-state is Free, cleared to Undefined, on the free list exactly once, '
+             'its symbol removed from the symbol table; free cells stay intact; the heap grows exactly when utilisation after the sweep exceeds 75 %.',
+        note='The first sentence (heap stops growing over unbounded executions) is outside the claim. Trusted base as C03.',
+        technique='symbolic execution of rustc MIR with z3 from fabricated symbolic pre-states (one inductive step), native replay through hooks', design='4/C12'),
+    'C18': dict(
+        text='Invariant preservation + name round trips, bounded: (a) Heap::put / maybe_put of a symbol (present / absent name) preserves "table[name]=p <=> '
+             'heap[p]=Symbol(name), not free" and changes no other cell; (b) the symbol table across one collection (subset of the C03 templates); '
+             '(c) (symbol->string (string->symbol s)) = s for every string of <= 3 characters (thorough 4) over ALL Unicode scalar values (width class '
+             'forked, code point symbolic) through the real encoder and parse_string decoder; (d) (string->symbol (symbol->string y)) = y for every '
+             'symbol of <= 3 characters the real lexer reads as one symbol token.',
+        note='Two recorded findings for clause (d) (reader symbols containing a backslash or starting with + - . digit); one defect of clause (c) was repaired '
+             '(fix: commit). Routes through macro output / eval are whole-VM and outside the claim. is_alphabetic outside ASCII is uninterpreted.',
+        technique='symbolic execution of rustc MIR with z3 (encoder/decoder round trip, interning step), native replay through eval', design='4/C18'),
+})
+
 NOT_APPLICABLE = {
     'C01': 'whole-pipeline property over arbitrary programs (reader -> syntax-rules prelude -> compiler -> VM): no engine here can push a symbolic program through it; enumerating program shapes would be testing, not solver work (DESIGN.md section 5)',
     'C02': 'scoping is a relation between compile-time environment maps and run-time environment chains across nested activations of whole programs; the only solver-sized kernel restates the code (DESIGN.md section 5)',
@@ -47,7 +84,7 @@ man = {
     'version': 1,
     'setup_cmd': './setup.sh',
     'hooks': {'guard': 'cargo feature verif-hooks (marwood/Cargo.toml)', 'enable': 'replay crate built with --features hooks -> marwood/verif-hooks',
-              'baseline_off_cmd': 'cd /repo && cargo test --workspace --no-fail-fast --offline', 'source_commits': [], 'add_only': True},
+              'baseline_off_cmd': 'cd /repo && cargo test --workspace --no-fail-fast --offline', 'source_commits': ['570315d'], 'add_only': True},
     'engines': [
         {'name': 'mirsym', 'path': 'mirsym/', 'serves_properties': sorted(CLAIMED), 'kind_free_text': 'symbolic interpreter for rustc MIR (python + z3): path-complete exploration within stated bounds, decision-prefix forking sharded over 16 processes'},
         {'name': 'replay', 'path': 'replay/', 'serves_properties': sorted(CLAIMED), 'kind_free_text': 'native replay binary (dev + release) linked against /repo/marwood: confirms every counterexample, differential validation of the models'},
